@@ -792,8 +792,8 @@ func histText(steps []hstep, obs []hobs) string {
 
 func genC14(ctx *fw.Ctx) []fw.Case {
 	var cases []fw.Case
-	nShort := ctx.Pick(300, 5000)
-	nLong := ctx.Pick(1500, 40000)
+	nShort := ctx.Pick(300, 30000)
+	nLong := ctx.Pick(1500, 200000)
 	for i := 0; i < nShort; i++ {
 		i := i
 		cases = append(cases, fw.Case{ID: fmt.Sprintf("short/%d", i), Run: func(r *fw.Rec) { c14Short(r, i) }})
